@@ -42,9 +42,9 @@ Wild(e) == IF "wild" \in DOMAIN e THEN e.wild ELSE [x \in {} |-> 0]
 
 StaticFails(e) ==
   LET impl == BuildImpl(e.target, e.nodes, Wild(e), 1, <<>>)
-      mf == RunProgram(e.target, e.nodes, e.root, impl, e.prog)
-      ds == Denotations(e.target, e.nodes, impl, e.prog)
-      tf == IF e.target = "cpp" THEN CppTypingFails(e.nodes, e.prog, ds) ELSE {}
+      run == RunProgram(e.target, e.nodes, e.root, impl, e.prog)
+      mf == run.fails
+      tf == IF e.target = "cpp" THEN CppTypingFails(e.nodes, e.prog, run.ds) ELSE {}
       \* parameters / return annotation
       pf == {Fail("declared_type", 0, e.prog.params[j].name) : j \in {jj \in 1..Len(e.prog.params) :
                 LET p == e.prog.params[jj]
